@@ -119,15 +119,34 @@ static void queue_alt(const Decision& last) {
 }
 
 // ------------------------------------------------------------------ solver
+
+// External decision by the cvc5 binary on the current path condition plus an assumption.
+// Returns sat/unsat/unknown; on sat stores the values of the inputs in g_ext_inputs_json.
+static z3::check_result cvc5_check(const expr* assumption, unsigned timeout_ms);
 static std::unique_ptr<z3::model> g_last_model;     // model of the last sat answer of timed_check
-static bool g_fresh_obligations = false;
+static int g_obligation_mode = 0;          // 0: incremental z3 (+fallbacks), 1: fresh z3 first, 2: external cvc5 first
 static bool g_force_fresh = false;
+static bool g_force_cvc5 = false;
+static bool g_obligation_call = false;   // the query is an obligation (only its verdict and the inputs of a model are needed)
+static std::string g_ext_inputs_json;     // inputs of the last sat answer when it came from cvc5
+static bool g_last_sat_external = false;
+static long g_cvc5_calls = 0;
 static long g_fallbacks = 0;
 static z3::check_result timed_check(const expr* assumption) {
   auto t0 = std::chrono::steady_clock::now();
   z3::check_result r;
   g_in_solver = 1;
-  if (g_force_fresh) r = z3::unknown;
+  g_last_sat_external = false;
+  if (g_force_cvc5) {
+    r = cvc5_check(assumption, g_query_timeout_ms * 2);
+    if (r != z3::unknown) {
+      g_in_solver = 0;
+      g_ps.solver_s += std::chrono::duration<double>(std::chrono::steady_clock::now() - t0).count();
+      if (r == z3::sat) { ++g_ps.q_sat; g_last_sat_external = true; } else ++g_ps.q_unsat;
+      return r;
+    }
+  }
+  if (g_force_fresh || g_force_cvc5) r = z3::unknown;
   else try {
     if (assumption) { z3::expr_vector v(ctx()); v.push_back(*assumption); r = g_solver->check(v); }
     else r = g_solver->check();
@@ -152,6 +171,10 @@ static z3::check_result timed_check(const expr* assumption) {
         fprintf(stderr, "unknown reason: %s\n", s2.reason_unknown().c_str());
       }
     } catch (z3::exception& e) { r = z3::unknown; }
+    if (r == z3::unknown && !g_force_cvc5 && g_obligation_call) {
+      r = cvc5_check(assumption, g_query_timeout_ms * 4);
+      if (r == z3::sat) g_last_sat_external = true;
+    }
   }
   g_in_solver = 0;
   g_ps.solver_s += std::chrono::duration<double>(std::chrono::steady_clock::now() - t0).count();
@@ -170,6 +193,49 @@ static std::string model_inputs_json(z3::model& m) {
   }
   os << "}";
   return os.str();
+}
+
+static z3::check_result cvc5_check(const expr* assumption, unsigned timeout_ms) {
+  ++g_cvc5_calls;
+  char fn[64]; snprintf(fn, sizeof fn, "/dev/shm/symrt_%d.smt2", (int)getpid());
+  {
+    std::ofstream f(fn);
+    if (!f) return z3::unknown;
+    z3::solver s2(ctx());
+    z3::expr_vector as = g_solver->assertions();
+    for (unsigned i = 0; i < as.size(); ++i) s2.add(as[i]);
+    if (assumption) s2.add(*assumption);
+    std::string body = s2.to_smt2();
+    f << "(set-logic ALL)\n(set-option :produce-models true)\n" << body;
+    if (!g_inputs.empty()) { f << "(get-value ("; for (auto& in : g_inputs) f << in.first << " "; f << "))\n"; }
+  }
+  char cmd[256]; snprintf(cmd, sizeof cmd, "cvc5 --tlimit=%u %s 2>/dev/null", timeout_ms, fn);
+  FILE* p = popen(cmd, "r");
+  if (!p) return z3::unknown;
+  std::string out; char buf[4096]; size_t n;
+  while ((n = fread(buf, 1, sizeof buf, p)) > 0) out.append(buf, n);
+  pclose(p);
+  unlink(fn);
+  if (out.compare(0, 5, "unsat") == 0) return z3::unsat;
+  if (out.compare(0, 3, "sat") != 0) return z3::unknown;
+  // parse ((name value) (name (- value)) ...)
+  std::ostringstream js; js << "{"; bool first = true;
+  for (auto& in : g_inputs) {
+    std::string key = "(" + in.first + " ";
+    size_t k = out.find(key);
+    std::string val = "0";
+    if (k != std::string::npos) {
+      size_t a = k + key.size(); size_t b = a; int depth = 0;
+      while (b < out.size()) { if (out[b] == '(') ++depth; else if (out[b] == ')') { if (depth == 0) break; --depth; } ++b; }
+      std::string t = out.substr(a, b - a); std::string digits; bool neg = t.find('-') != std::string::npos;
+      for (char c : t) if (isdigit((unsigned char)c)) digits += c;
+      val = (neg ? "-" : "") + digits;
+    }
+    js << (first ? "" : ",") << "\"" << json_escape(in.first) << "\":\"" << val << "\""; first = false;
+  }
+  js << "}";
+  g_ext_inputs_json = js.str();
+  return z3::sat;
 }
 [[noreturn]] void abort_path(const char* why) {
   g_ps.inconclusive = true; if (g_ps.why.empty()) g_ps.why = why;
@@ -299,9 +365,9 @@ void define(const expr& f) { Rt_Guard rg; g_solver->add(f); }
 bool decide(const expr& f) { return branch(f); }
 bool possible(const expr& f) {
   Rt_Guard rg;
-  g_force_fresh = g_fresh_obligations;
+  g_force_fresh = g_obligation_mode == 1; g_force_cvc5 = g_obligation_mode == 2; g_obligation_call = true;
   z3::check_result r = timed_check(&f);
-  g_force_fresh = false;
+  g_force_fresh = g_force_cvc5 = g_obligation_call = false;
   if (r == z3::unknown) abort_path("unknown in possible()");
   return r == z3::sat;
 }
@@ -334,11 +400,12 @@ bool check(const expr& f, const std::string& label) {
   if (getenv("SYMRT_TRACE")) { fprintf(stderr, "check %s\n", label.c_str()); if (atoi(getenv("SYMRT_TRACE")) > 1) { std::ofstream d("/tmp/trace_last.smt2"); d << g_solver->to_smt2() << "(assert " << !f << ")\n(check-sat)\n"; } }
   expr nf = (!f).simplify();
   if (nf.is_false()) { ++g_ps.discharged; return true; }
-  g_force_fresh = g_fresh_obligations;
+  g_force_fresh = g_obligation_mode == 1; g_force_cvc5 = g_obligation_mode == 2; g_obligation_call = true;
   z3::check_result r = timed_check(&nf);
-  g_force_fresh = false;
+  g_force_fresh = g_force_cvc5 = g_obligation_call = false;
   if (r == z3::unsat) { ++g_ps.discharged; return true; }
   if (r == z3::unknown) { g_ps.inconclusive = true; if (g_ps.why.empty()) g_ps.why = "unknown on obligation " + label; return false; }
+  if (g_last_sat_external) { record_violation("check", label, g_ext_inputs_json, "(model from cvc5)"); return false; }
   z3::model m = *g_last_model;
   std::ostringstream w; w << m;
   record_violation("check", label, model_inputs_json(m), w.str());
@@ -353,15 +420,16 @@ bool check_all(const std::vector<std::pair<z3::expr, std::string> >& obs) {
   for (auto& o : obs) nf = nf || !o.first;
   nf = nf.simplify();
   if (getenv("SYMRT_TRACE")) { fprintf(stderr, "check_all %zu first=%s\n", obs.size(), obs[0].second.c_str()); if (atoi(getenv("SYMRT_TRACE")) > 1) { std::ofstream d("/tmp/trace_last.smt2"); d << g_solver->to_smt2() << "(assert " << nf << ")\n(check-sat)\n"; } }
-  g_force_fresh = g_fresh_obligations;
+  g_force_fresh = g_obligation_mode == 1; g_force_cvc5 = g_obligation_mode == 2; g_obligation_call = true;
   z3::check_result r = nf.is_false() ? z3::unsat : timed_check(&nf);
-  g_force_fresh = false;
+  g_force_fresh = g_force_cvc5 = g_obligation_call = false;
   if (r == z3::unsat) { g_ps.checks += obs.size(); g_ps.discharged += obs.size(); return true; }
   bool all = true;
   for (auto& o : obs) all = check(o.first, o.second) && all;
   return all;
 }
-void fresh_obligations(bool on) { g_fresh_obligations = on; }
+void fresh_obligations(bool on) { g_obligation_mode = on ? 1 : 0; }
+void obligation_solver(int mode) { g_obligation_mode = mode; }
 void reach(const std::string& label) { note("reach:" + label); }
 void require(bool ok, const std::string& label) {
   Rt_Guard rg;
@@ -427,7 +495,7 @@ static void run_path(void (*fn)(), const std::string& prefix) {
   g_prefix = parse_prefix(prefix);
   g_decisions.clear(); g_dec_str.clear(); g_have_model = false; g_fresh = 0; g_inputs.clear(); g_inputs_json = "{}";
   g_facts.clear(); g_ps = Path_Stats(); g_pending_abort = false; g_viol_this_path = 0;
-  g_fault_kinds = 0; g_fault_fired = false; g_fault_points = 0; g_fresh_obligations = false;
+  g_fault_kinds = 0; g_fault_fired = false; g_fault_points = 0; g_obligation_mode = 0;
   z3::solver s(ctx());
   z3::params p(ctx()); p.set("timeout", g_query_timeout_ms); s.set(p);
   g_solver = &s;
